@@ -263,6 +263,9 @@ func accessPath(v ssa.Value) (root ssa.Value, sels []Sel) {
 			v = x.X
 		case *ssa.SliceToArrayPointer:
 			v = x.X
+		case *synthField:
+			rev = append(rev, Sel{Field: x.field})
+			v = x.base
 		case *ssa.Alloc:
 			// a struct parameter / value receiver spilled to a local: the root is the parameter
 			if s := singleStore(x); s != nil {
@@ -552,3 +555,17 @@ func constantInt64(c *types.Const) (int64, bool) {
 	}
 	return constant.Int64Val(c.Val())
 }
+
+// synthField stands for base.field where the selection happened inside a predicate
+// helper that was inlined into a caller's facts (see helperTimeRels).
+type synthField struct {
+	base  ssa.Value
+	field *types.Var
+}
+
+func (s *synthField) Name() string                  { return s.base.Name() + "." + s.field.Name() }
+func (s *synthField) String() string                { return s.Name() }
+func (s *synthField) Type() types.Type              { return s.field.Type() }
+func (s *synthField) Parent() *ssa.Function         { return s.base.Parent() }
+func (s *synthField) Referrers() *[]ssa.Instruction { return nil }
+func (s *synthField) Pos() token.Pos                { return s.base.Pos() }
